@@ -398,6 +398,10 @@ def _train_op(rep: Report, plan: dict[str, Any], ref: R.RefKFAC,
     except torch.linalg.LinAlgError:
         # ill-posed reference system (a diverging run): vacuous from here on
         ref.diverged = True
+        ref.steps = s + 1
+        if unint is not None:
+            unint.diverged = True
+            unint.steps = s + 1
         rep.stats['vacuous_reference_failed'] += 1
         return
     agree = uinfo is None or all(
